@@ -3,6 +3,7 @@ package main
 import (
 	"bytes"
 	"fmt"
+	"hash/fnv"
 	"math/rand/v2"
 	"net/netip"
 	"slices"
@@ -221,6 +222,7 @@ func evalC07(c string) Result {
 		before := preRecord(f[1])
 		rec := preRecord(f[1])
 		buf := bytes.Clone(line)
+		c07Prime(line)
 		err := rec.UnmarshalText(buf)
 		// the buffer is the caller's: it is reused for the next line straight away
 		for i := range buf {
@@ -239,6 +241,7 @@ func evalC07(c string) Result {
 	case "C07.roundtrip":
 		line := unhx(f[1])
 		rec := &hostsfile.Record{}
+		c07Prime(line)
 		err := rec.UnmarshalText(bytes.Clone(line))
 		first := showRecGo(rec, err)
 		data, merr := rec.MarshalText()
@@ -266,6 +269,43 @@ func evalC07(c string) Result {
 		return Result{Impl: impl, Direct: direct, Class: class}
 	}
 	panic("bad op " + f[0])
+}
+
+// c07Prime: a file has other lines before this one.  For every second line (by content) lines
+// that look like it are parsed into other records first: the same line with the case of its
+// ASCII letters swapped, and with only the first field in upper case.  What a line parses to
+// does not depend on the lines parsed before it.
+func c07Prime(line []byte) {
+	h := fnv.New32a()
+	h.Write(line)
+	if h.Sum32()%2 != 0 {
+		return
+	}
+	swap := bytes.Map(func(r rune) rune {
+		switch {
+		case 'a' <= r && r <= 'z':
+			return r - 32
+		case 'A' <= r && r <= 'Z':
+			return r + 32
+		}
+		return r
+	}, line)
+	upper := bytes.Clone(line)
+	for i, b := range upper {
+		if b == ' ' || b == '\t' {
+			if i > 0 {
+				break
+			}
+		} else if 'a' <= b && b <= 'z' {
+			upper[i] = b - 32
+		}
+	}
+	for _, l := range [][]byte{swap, upper} {
+		func() {
+			defer func() { _ = recover() }()
+			_ = (&hostsfile.Record{}).UnmarshalText(l)
+		}()
+	}
 }
 
 // ---- generators
